@@ -482,6 +482,22 @@ func (x *fx) typeAssert(i *ssa.TypeAssert) {
 		res = e.S.fromVal(v, i.AssertedType)
 	}
 	okc := e.define("is", "Bool", ok)
+	// canonicalisation stability (C09): a number that reaches a float64 type
+	// test must already be a float64, otherwise the in-memory value and its
+	// JSON round trip take different branches
+	if root := x.rootContract(); root != nil && len(root.Canon) > 0 && !strings.Contains(x.tag, "fudge") {
+		if b, isB := i.AssertedType.Underlying().(*types.Basic); isB && b.Kind() == types.Float64 {
+			var kinds []Term
+			for _, k := range []types.BasicKind{types.Float32, types.Int64, types.Int32, types.Int} {
+				kinds = append(kinds, e.S.hasType(v, types.Typ[k]))
+			}
+			name := "canon-stable:" + x.describe(i.X)
+			if x.tag != "" {
+				name += "@" + x.tag
+			}
+			e.oblig("canon-stable", name, root.Canon, x.curReach, not(or(kinds...)), x.pos(i.Pos()), "a number tested against float64 here has been coerced (fudge) before: otherwise persisting and reloading the value changes the branch taken")
+		}
+	}
 	if i.CommaOk {
 		r := e.define(i.Name(), e.S.sortOf(i.AssertedType), fmt.Sprintf("(ite %s %s %s)", okc, res, e.S.zero(i.AssertedType)))
 		e.assumeWF(r, i.AssertedType, x.cur.alloc)
